@@ -152,8 +152,12 @@ theorem body_fee_plain (fs : List (Nat × Nat)) (hf : ∀ p ∈ fs, p.1 < 2^40)
     (hsum : (fs.map (·.1)).sum < 2^64) :
     Fns.TransactionBody_fee (fs.map fun p => ⟨.Plain (packFee p.1 p.2)⟩) = (fs.map (·.1)).sum := by
   rw [body_fee_eq, feeFields_plain, List.map_map]
-  have : fs.map ((· % 2^40) ∘ fun p => packFee p.1 p.2) = fs.map (·.1) :=
-    List.map_congr_left (fun p hp => packFee_fee (hf p hp))
+  have : fs.map ((· % 2^40) ∘ fun p => packFee p.1 p.2) = fs.map (·.1) := by
+    apply List.map_congr_left
+    intro p hp
+    have h40 := hf p hp
+    simp only [Function.comp_apply, packFee]
+    omega
   rw [this]
   exact Nat.min_eq_left (Nat.le_sub_one_of_lt hsum)
 
